@@ -16,8 +16,10 @@ CHECKS = {
                 ref="3/C01"),
     "C02": dict(cat="exploration", tech="bounded-exhaustive enumeration against an independent reference encoder and a frozen opcode table",
                 text="bytes(Subroutine) is compared byte for byte with an independent encoder driven by a frozen published "
-                     "opcode/operand table for walking-one, all-distinct and complete per-field valuations and all headers; the "
-                     "reference bytes are decoded by the real decoder. A consistent renumbering or field swap in encoder and "
+                     "opcode/operand table for walking-one, all-distinct and complete per-field valuations, full products of small shapes and all headers; "
+                     "the reference bytes are decoded by the real decoder; flavour objects constructed in every order must still "
+                     "decode their own published bytes; an instruction whose operands are changed in place after a first encoding "
+                     "must encode its current operands. A consistent renumbering or field swap in encoder and "
                      "decoder, invisible to any round-trip test, is caught.",
                 note="the frozen table mc/wiretable.py is trusted as the published table (mov = 42 after the C01 repair)",
                 ref="3/C02"),
@@ -49,15 +51,17 @@ CHECKS = {
                      "every subset of flush gaps, every feasible measurement-outcome script and three initial arrays, are built "
                      "with the real SDK, compiled, serialised, deserialised and executed on the real controller, and compared "
                      "with direct evaluation of the AST on the ordered gate/measurement trace, controller arrays and registers "
-                     "after each flush, and the host-side value of every live Future/RegFuture/Array handle after each flush.",
+                     "after each flush, and the host-side value of every live Future/RegFuture/Array handle after each flush. The "
+                     "reduced x small pair pool also runs on the NV hardware config with and without the NV transpiler (measurement "
+                     "outcomes, memory, handles and the final state of the persistent qubit).",
                 note="programs beyond the size/nesting bound and SDK usages outside the grammar are not covered; quantum hooks of the "
                      "controller are harness code (exact state vector); one open known finding (ret_reg of a never-written register)",
                 ref="3/C05"),
     "C06": dict(cat="exploration", tech="bounded-exhaustive enumeration of compile/instantiate/commit vs flush histories x template values x outcome scripts on the real SDK and controller, differential oracle",
                 text="Every history of 1..2 (thorough 3) segments over seven segment bodies with template operands in rotation numerators "
                      "(one and two templates, denominators 0/1/4, measurement into a new future, a register, an existing array slot, "
-                     "rotation of a persistent qubit), each closed by flush() or by compile() -> instantiate() -> commit_subroutine() "
-                     "(at least one pre-compiled), followed by the closing flush, for template values {0,1,8,16,31,255}, with and "
+                     "rotation of a persistent qubit), each closed by flush(), by compile() -> instantiate() -> commit_subroutine(), or compiled now and committed "
+                     "later in order (at least one pre-compiled), followed by the closing flush, for template values {0,1,8,16,31,255}, with and "
                      "without the NV transpiler and for every measurement-outcome script, is executed on the real pipeline and must "
                      "give exactly the observations (gate trace with angles, controller arrays, host handle values, builder "
                      "bookkeeping) of the same history written with literals and plain flushes, after every segment and after close.",
@@ -83,13 +87,15 @@ CHECKS = {
                      "entangled initial state under every measurement script: named registers, arrays, allocation and the full state "
                      "vector (up to global phase) must equal those of the original under vanilla semantics. Statically, every branch "
                      "target must be the first instruction of the expansion of its original target (or the appended no-op), non-gate "
-                     "instructions keep their order and operands, and debug=True must give the same wire program as debug=False.",
+                     "instructions keep their order and operands, and debug=True must give the same wire program as debug=False. A corpus of "
+                     "vanilla subroutines the real builder emits for NV hardware (C05's statement pool: contexts, loops, conditionals, "
+                     "relocations with mov) is judged the same way.",
                 note="programs in which every gate is preceded by the set/load of its registers (what the builder emits); open known findings: "
                      "two-qubit gate on a register written by load, carbon-carbon gate through an unallocated electron",
                 ref="3/C08"),
     "C09": dict(cat="model_checking", tech="explicit-state BFS over SDK qubit-operation histories, every history replayed on the real SDK-to-controller pipeline with an allocation-checking executor",
                 text="Breadth-first search over histories of qubit creation, gates, cnot, in-place and destructive measurement, free, "
-                     "create/recv_keep(1|2), sequential keep with a measuring post routine, sequential and non-sequential EPR contexts "
+                     "create/recv_keep(1|2), sequential keep (1|2 pairs) with a measuring post routine, sequential and non-sequential EPR contexts "
                      "and flush, enabled only while the live qubits stay within the budget (budget-1 on single-communication-qubit "
                      "hardware), for budgets 1..5 x {generic, NV config, NV config + NV transpiler}, hashing handle ids, a digest of "
                      "the pending commands, the builder's qubit list and the controller's unit module. Every flush must execute "
@@ -102,7 +108,7 @@ CHECKS = {
                 ref="3/C09"),
     "C10": dict(cat="exploration", tech="exhaustive enumeration of pair counts x all Bell-state tuples x API variants x hardware x live-qubit shifts through the real SDK-to-controller pipeline with real Bell pairs in an exact state vector; exact joint distributions for measure-directly",
                 text="For n = 1..3 (thorough 4) pairs, all 4^n Bell-state tuples, the variants recv_keep, recv_keep_with_info, sequential "
-                     "recv_keep with a measuring post routine (Z and X), recv_rsp, recv_rsp_with_info, create_keep(_with_info), generic / "
+                     "recv_keep with a measuring post routine (Z and X), recv_keep with a non-sequential post routine, recv_rsp, recv_rsp_with_info, create_keep(_with_info), generic / "
                      "NV / NV+transpiler hardware, 0..2 other live qubits, expect_phi_plus on and off and responses in native and "
                      "qlink-interface 1.0 format, the link model puts a real Bell pair (local half on a fresh physical qubit) into the "
                      "controller's state vector; after the subroutine the reduced state of every (local_i, remote_i) must be exactly "
@@ -126,7 +132,8 @@ CHECKS = {
                      "where no Bell post-processing applies (C10); the R-to-qlink-1.0 conversion refusal is counted, not judged",
                 ref="3/C11"),
     "C12": dict(cat="model_checking", tech="explicit-state exploration of all interleavings of executor instruction steps, link-layer response deliveries and retries on the real executor, canonical state hashing, per-state invariants and FIFO reference",
-                text="For nine scenarios of the shape the SDK emits (1..3 outstanding requests of 1..3 pairs; same and different sockets and "
+                text="For ten hand-written scenarios of the shape the SDK emits and seven subroutines emitted by the real SDK (recv_keep, "
+                     "create_keep+recv_keep, two sockets, recv/create_measure, sequential keep with post routine, NV recv_keep) (1..3 outstanding requests of 1..3 pairs; same and different sockets and "
                      "remote nodes; create and receive roles mixed; keep and measure types; a target virtual qubit still allocated when "
                      "its response arrives; wait_all / wait_any / wait_single) the real executor's generator is advanced one "
                      "instruction at a time and every interleaving with response deliveries (per stream in order, receiver-side also "
@@ -157,7 +164,8 @@ CHECKS = {
                 text="Breadth-first search over histories of 35 kinds of completed SDK operations plus flush (forced at the latest after 15 "
                      "operations) on one connection, hashing the builder's register economy; every transition compiles and serialises "
                      "the real subroutine. Every completed operation must return the pool to the state it found (no active register, "
-                     "no measurement register beyond live RegFutures, no open context); the state graph closes (136 states), which "
+                     "no measurement register beyond live RegFutures, no open context), also after a probing flush that follows every "
+                     "transition (the state key does not hold pending commands); the state graph closes (136 states), which "
                      "gives the unbounded statement: sequences of any length keep compiling. Loops nested 1..14 deep with each "
                      "operation kind innermost are executed on the real controller and compared with direct evaluation, so a "
                      "temporary overwriting a live enclosing loop counter is seen as a wrong sum.",
@@ -176,7 +184,7 @@ CHECKS = {
                 text="For every instruction class of every flavour, every operand field is given every value of a just-outside / "
                      "far-outside list against two backgrounds, through direct construction, through the text assembler and "
                      "through SDK calls (rotation numerators/denominators, measurement basis rotations, array initial values, "
-                     "literals, app id); the oracle is 'encoding raises, or the bytes decode to exactly the requested program', "
+                     "literals, loop bounds, app id through constructor / setter / instantiate()); the oracle is 'encoding raises, or the bytes decode to exactly the requested program', "
                      "so a future widening of a field is not an alarm but a silent truncation is.",
                 note="register banks are an Enum and cannot be out of range; SDK route runs on DebugConnection",
                 ref="3/C16"),
